@@ -5,24 +5,27 @@ open TypifyModel TypifyModel.Serde
 
 variable (x : Ext) (σ : Space)
 
+/-- without flattened members every key written is the wire name of a member -/
 theorem seFieldsR_keys {rec : Id → Val → Except E Json} :
-    ∀ {ps : List Field} {fs : List (String × Val)} {es : List (String × Json)},
+    ∀ {ps : List Field} {fs : List (String × Val)} {es : List (String × Json)}, hasFlatten ps = false →
       seFieldsR rec σ ps fs = .ok es → ∀ kv ∈ es, ∃ p ∈ ps, p.wire = kv.1 := by
   intro ps
   induction ps with
   | nil =>
-    intro fs es h kv hkv
+    intro fs es _ h kv hkv
     cases fs <;> simp [seFieldsR] at h
     subst h; simp at hkv
   | cons p r ih =>
-    intro fs es h kv hkv
+    intro fs es hfl h kv hkv
+    obtain ⟨hpf, hrf⟩ := hasFlatten_cons hfl
+    have ih := fun {fs es} => @ih fs es hrf
     cases fs with
     | nil => simp [seFieldsR] at h
     | cons a as =>
       obtain ⟨n, v⟩ := a
       simp only [seFieldsR] at h
       split at h
-      · simp at h
+      · rename_i hc; rw [hpf] at hc; simp at hc
       · split at h
         · simp at h
         · rename_i rest hrest
@@ -190,18 +193,19 @@ theorem fields_back {f : Nat} :
       ∀ (fs : List (String × Val)) (es : List (String × Json)),
       FieldsRel x σ f ps fs → seFieldsR (se σ f) σ ps fs = .ok es →
       nodupB (ps.map (·.wire)) = true →
-      (∀ p ∈ ps, (p.state matches .optional) → optionalOkB σ p.ty = true) →
+      (∀ p ∈ ps, (p.state matches .optional) → optionalOkB σ p.ty = true) → hasFlatten ps = false →
       ∀ obj : List (String × Json), (∀ p ∈ ps, Json.lookup obj p.wire = Json.lookup es p.wire) →
         mapM' (stepE x σ f obj) ps = .ok fs := by
   intro ps
   induction ps with
   | nil =>
-    intro _ fs es hrel _ _ _ obj _
+    intro _ fs es hrel _ _ _ _ obj _
     cases fs with
     | nil => rfl
     | cons _ _ => simp [FieldsRel] at hrel
   | cons p r ihp =>
-    intro ih fs es hrel hse hnd hopt obj hobj
+    intro ih fs es hrel hse hnd hopt hfl obj hobj
+    obtain ⟨hpf, hrf⟩ := hasFlatten_cons hfl
     have ihp := ihp (fun q hq => ih q (by simp [hq]))
     cases fs with
     | nil => simp [FieldsRel] at hrel
@@ -213,7 +217,7 @@ theorem fields_back {f : Nat} :
       obtain ⟨hne, hnd'⟩ := nodupB_cons hnd
       simp only [seFieldsR] at hse
       split at hse
-      · simp at hse
+      · rename_i hc; rw [hpf] at hc; simp at hc
       · cases hrest : seFieldsR (se σ f) σ r as with
         | error e => rw [hrest] at hse; simp at hse
         | ok rest =>
@@ -222,7 +226,7 @@ theorem fields_back {f : Nat} :
           -- keys of `rest` are wires of `r`, all different from p.wire
           have hrestkeys : ∀ kv ∈ rest, kv.1 ≠ p.wire := by
             intro kv hkv
-            obtain ⟨q, hq, hw⟩ := seFieldsR_keys σ hrest kv hkv
+            obtain ⟨q, hq, hw⟩ := seFieldsR_keys σ hrf hrest kv hkv
             rw [← hw]
             exact hne q.wire (List.mem_map.mpr ⟨q, hq, rfl⟩)
           obtain ⟨f', hf'⟩ := fieldVal_fuel_pos x σ hfv
@@ -244,7 +248,7 @@ theorem fields_back {f : Nat} :
                 subst hf'
                 rcases hkind with ⟨⟨t', ed, im, hg⟩, rfl⟩ | ⟨⟨t', ed, im, hg⟩, rfl⟩ | ⟨⟨k, v, ed, im, hg⟩, rfl⟩ <;>
                   simp [dflt, hg]
-            have htail := ihp as rest hrel' hrest hnd' (fun q hq => hopt q (by simp [hq])) obj
+            have htail := ihp as rest hrel' hrest hnd' (fun q hq => hopt q (by simp [hq])) hrf obj
               (fun q hq => hobj q (by simp [hq]))
             simp only [mapM', hstep, htail]
           · have hsk' : skipped σ p av = false := by simpa using hsk
@@ -282,7 +286,7 @@ theorem fields_back {f : Nat} :
                   · exact hback j hj
               have hstep : stepE x σ f obj p = .ok (p.name, av) := by
                 unfold stepE; rw [hlp]; simp only [hde]
-              have htail := ihp as rest hrel' hrest hnd' (fun q hq => hopt q (by simp [hq])) obj
+              have htail := ihp as rest hrel' hrest hnd' (fun q hq => hopt q (by simp [hq])) hrf obj
                 (fun q hq => by
                   rw [hobj q (by simp [hq])]
                   have : p.wire ≠ q.wire := fun h => hne q.wire (List.mem_map.mpr ⟨q, hq, rfl⟩) h.symm
